@@ -41,7 +41,10 @@ def main(tier, seed):
         line = _corrupt(base, cor, pred, mut)
         _, rej1 = _validate(cor, dom, prop)
         bad1 = [r for r in rej1 if not r["dev"]]
-        ok = (not bad0) and line is not None and len(bad1) == 1 and bad1[0]["line"] == line
+        # the first rejected event must be the corrupted one (in a Wrapping program a corrupted register value may make
+        # later steps of the same program inconsistent as well)
+        ok = (not bad0) and line is not None and len(bad1) >= 1 and min(r["line"] for r in bad1) == line \
+            and (len(bad1) == 1 or bin_ == "wrap")
         cases.append(dict(case=name, accepted_clean=not bad0, corrupted_line=line,
                           rejected_lines=[r["line"] for r in bad1], ok=ok))
         log("selftest %-28s clean: %d unexplained rejects; corrupted line %s -> rejected lines %s  %s"
